@@ -417,8 +417,8 @@ func ResolveV2(in *ResInput) (map[SKey]string, *ResTrace) {
 	return partial, tr
 }
 
-// ResolveV1 implements state resolution v1 (R6). authState is the
-// unconflicted auth state (one event per key), as the resolver documents.
+// ResolveV1 implements state resolution v1 (R6). authState is the auth state the caller supplies (one event per key):
+// as the resolver documents the unconflicted one, but callers also pass events for keys that are in conflict.
 func ResolveV1(in *ResInput, authState map[SKey]string) map[SKey]string {
 	byKey := map[SKey]map[string]bool{}
 	for _, set := range in.Sets {
@@ -498,6 +498,9 @@ func ResolveV1(in *ResInput, authState map[SKey]string) map[SKey]string {
 	for _, stage := range stages {
 		stageRes := map[SKey]string{}
 		for _, b := range typeBlocks(stage) {
+			// (the caller may have supplied an auth event for a key that is in conflict: it is in force for the other
+			// blocks of the stage, and for this key it is back in force once the block is done)
+			prev, had := auth[b.key]
 			cand := b.ids[0]
 			auth[b.key] = cand
 			for _, id := range b.ids[1:] {
@@ -508,7 +511,11 @@ func ResolveV1(in *ResInput, authState map[SKey]string) map[SKey]string {
 					break
 				}
 			}
-			delete(auth, b.key)
+			if had {
+				auth[b.key] = prev
+			} else {
+				delete(auth, b.key)
+			}
 			stageRes[b.key] = cand
 		}
 		for k, id := range stageRes {
